@@ -608,6 +608,9 @@ func expectationFor(msg, field string, ft types.Type, st map[string]LangSpec) (f
 
 // C16 — stateless acceptance equals the documented limits.
 func checkC16(p *Prog, r *Report) {
+	checkNoNilWrap(p, r, "C16", "x/<module>/types", func(fn *ssa.Function) bool {
+		return inExactPkgs(fn, "x/aol/types", "x/did/types", "x/pnft/types", "x/burn/types")
+	})
 	r.Explain = "Decided statically: for each of the 14 messages the accept condition of ValidateBasic (disjunction of the path conditions of its nil returns, module validators summarised by abstract interpretation into length interval × regular language, patterns constant-folded through fmt.Sprintf) is propositionally EQUIVALENT to the conjunction of the documented per-field constraints: every expected constraint is entailed (nothing outside the limits passes) and the expected constraints entail acceptance (nothing inside is refused). Languages are compared exactly (product automaton over the partition of the rune space induced by both patterns, lengths up to one past every bound) against two oracles that must agree: the numbers in the property statement and the repository's own documents (Limits table of .gitbook/specifications/aol.md, ABNF of docs/did.md, parsed on every run). For the DID document: Valid() passes each of the five relationship lists to the relationship validator, validates every method and service in loops without skips; method ids are <did>#<1..128 non-space>, key material is base58+, key type non-empty. PNFT handlers re-run ValidateBasic before the keeper call."
 	r.NotDec = []string{"AccAddressFromBech32 / bech32", "semantic validity of base58 key material", "rune vs byte length beyond ASCII (length is len(), i.e. bytes, compared as written)"}
 	r.Trusted = []string{"regexp/syntax (parsing and compilation of the constant patterns)", "baseapp runs ValidateBasic before handlers"}
@@ -966,6 +969,57 @@ func checkDidDocumentValid(p *Prog, r *Report, kp func(string, string) string) {
 			return t.Op == "eq" && (t.Args[0].Name == "nil" && t.Args[1].Op == "field" && t.Args[1].Name == f || t.Args[1].Name == "nil" && t.Args[0].Op == "field" && t.Args[0].Name == f)
 		})
 		r.Check(ok, kp("FIELDS", "DIDDocument.Valid#present:"+f), "verification methods and authentication are present", site, f+" != nil", f+" may be absent")
+	}
+	// the relationship validator itself: every relationship is validated, a plain reference must resolve, and the walk is left
+	// only by exhaustion or by rejecting
+	if vvr := p.MethodOf(dd, "validVerificationRelationships"); vvr != nil && vvr.Blocks != nil {
+		kLoop := kp("LOOP", "DIDDocument.validVerificationRelationships#every-relationship-validated")
+		checkUnconditionalLoopEffect(p, r, kLoop, vvr, func(in ssa.Instruction) bool {
+			c, ok := in.(*ssa.Call)
+			if !ok {
+				return false
+			}
+			sc := c.Call.StaticCallee()
+			return sc != nil && strings.HasSuffix(FuncName(sc), "VerificationRelationship).Valid")
+		}, "every relationship of a list is validated: none is skipped and the walk does not stop before the end")
+		// a reference is looked up among the document's methods, and a failed lookup rejects
+		resolves := false
+		for _, cs := range callSites(vvr) {
+			if cs.Callee == nil || !strings.HasSuffix(FuncName(cs.Callee), "DIDDocument).VerificationMethodByID") {
+				continue
+			}
+			c, isCall := cs.Instr.(*ssa.Call)
+			if !isCall || !inCycle(c.Block()) {
+				continue
+			}
+			// the comma-ok result decides an If in the same block whose "not found" side rejects
+			if refs := c.Referrers(); refs != nil {
+				for _, rf := range *refs {
+					ex, isEx := rf.(*ssa.Extract)
+					if !isEx || ex.Index != 1 || ex.Referrers() == nil {
+						continue
+					}
+					for _, er := range *ex.Referrers() {
+						iff, isIf := er.(*ssa.If)
+						if !isIf {
+							continue
+						}
+						notFound := iff.Block().Succs[1]
+						if len(notFound.Instrs) > 0 {
+							if ret, isRet := notFound.Instrs[len(notFound.Instrs)-1].(*ssa.Return); isRet && len(ret.Results) == 1 {
+								if cst, isC := ret.Results[0].(*ssa.Const); isC && cst.Value != nil && cst.Value.String() == "false" {
+									resolves = true
+								}
+							}
+						}
+					}
+				}
+			}
+		}
+		r.Check(resolves, kp("GUARD", "DIDDocument.validVerificationRelationships#reference-resolves"), "a relationship that only references a method must name one of the document's verification methods", p.FnPos(vvr),
+			"VerificationMethodByID(ref) not found ⇒ reject, inside the walk", "no lookup of the referenced method whose failure rejects the document was found in the walk over the relationships")
+	} else {
+		r.Undecided(kp("LOOP", "DIDDocument.validVerificationRelationships#anchor"), "the relationship validator is a method of the document", p.FnPos(valid), "validVerificationRelationships not found")
 	}
 	// the optional list fields: when present, contexts pass ValidateContexts; a controller list is empty or made of DIDs
 	{
